@@ -355,6 +355,10 @@ impl<'a> Peripheral<'a> {
                 // when it comes back.
                 log::warn!("Peripheral #{} stopped responding!", self.address);
                 self.state = PeripheralState::Offline;
+                // The peripheral is declared offline, so the next request is a first request again
+                // (FCV=0/FCB=1).  A stale frame count bit would make the peripheral treat every
+                // probe as a retransmission once it comes back.
+                self.fcb.reset();
                 Err((tx, Some(PeripheralEvent::Offline)))
             }
             PeripheralState::Offline => {
